@@ -45,7 +45,7 @@ func c09Plan(tp *Tape, env *Env) *Plan {
 	for i := 0; i < ln; i++ {
 		seed += string(seedAlphabet[tp.Int(0, 35, "seedchar")])
 	}
-	w.Host = HostSpec{Storer: []string{"rec", "mem"}[tp.Int(0, 1, "storer")], Probes: true, Seed: seed}
+	w.Host = HostSpec{Storer: []string{"rec", "mem"}[tp.Int(0, 1, "storer")], Probes: true, Seed: seed, Overrides: tp.Chance(10, "hostoverrides")}
 	ops := drawDynOps(tp, tp.Int(3, 24, "nops"), g.vars, 8, false)
 	if tp.Chance(30, "withrestores") && len(ops) > 3 {
 		// a snapshot and one or two restores on the way: what is drawn afterwards is still a function of the seed
